@@ -25,10 +25,15 @@ func (a *Audience) UnmarshalJSON(text []byte) error {
 	}
 	switch aud := i.(type) {
 	case []any:
-		*a = make([]string, len(aud))
+		out := make([]string, len(aud))
 		for i, audience := range aud {
-			(*a)[i] = audience.(string)
+			s, ok := audience.(string)
+			if !ok {
+				return fmt.Errorf("oidc.Audience: unable to parse type %T with value %v", audience, audience)
+			}
+			out[i] = s
 		}
+		*a = out
 	case string:
 		*a = []string{aud}
 	}
